@@ -88,7 +88,7 @@ def behave_case(seed, k):
     t = rng.choice(BEHAVE_TRAITS)
     ts = G.normalise_traits([t] + rng.sample(["Debug", "Clone", "PartialEq", "Eq", "PartialOrd", "Ord", "Hash"], rng.randint(2, 5)))
     rng.shuffle(ts)
-    o = G.Opts(p_attr=rng.choice([0.35, 0.6, 0.9]), max_fields=4, max_variants=3, bounds=False, p_partial=0.3)
+    o = G.Opts(p_attr=rng.choice([0.35, 0.6, 0.9]), max_fields=4, max_variants=3, bounds=False, p_partial=0.3, p_packed=0.4)
     td = G.random_type(rng, ts, o)
     if t not in td.traits:
         return None
@@ -228,7 +228,7 @@ def main(tier, seed, scale=1.0):
             rng = rng_for(seed, PROP, "case", k)
             ts = G.normalise_traits(rng.sample(G.ALL_TRAITS, rng.randint(3, 9)))
             rng.shuffle(ts)
-            td = G.random_type(rng, ts, G.Opts(p_attr=0.9, rich=rng.random() < 0.3))
+            td = G.random_type(rng, ts, G.Opts(p_attr=0.9, rich=rng.random() < 0.3, p_packed=0.4))
             t = rng.choice(td.traits)
             keep = {t} | {p for p in PARTNERS.get(t, []) if p in td.traits}
             red = reduce_to(td, keep)
